@@ -95,10 +95,65 @@ def declare(rep):
     rep.rule("C18.contact-strengths", "the repulsive contact block reads repulsion_strength_, the adhesive one adherence_strength_", floor=1)
 
 
+def _wrappers(fn):
+    """local lambdas that wrap 'get_string_value(section, <param>) + presence test + throw + return value':
+    did of the lambda variable -> lower-casing flag"""
+    out = {}
+    for d in walk(fn["body"]):
+        if d.get("k") != "Var" or not isinstance(d.get("init"), dict):
+            continue
+        lam = strip(d["init"])
+        if lam.get("k") != "LambdaExpr" or not lam.get("params"):
+            continue
+        body = lam.get("body") or {}
+        pdids = {p_.get("did") for p_ in lam["params"]}
+        gs = [n for n in walk(body) if is_call(n) and n.get("callee") == "parameter_reader::get_string_value"]
+        if len(gs) != 1:
+            continue
+        a = call_args(gs[0])
+        if not any(x.get("k") == "DeclRefExpr" and x["ref"].get("did") in pdids for x in walk(a[1])):
+            continue
+        presence = False
+        for s_ in walk(body):
+            if s_.get("k") == "IfStmt":
+                c = strip(s_["cond"])
+                if c.get("k") == "UnaryOperator" and c.get("op") == "!" and "has_value" in render(c) and always_exits(s_["then"]) and any(x.get("k") == "CXXThrowExpr" for x in walk(s_["then"])):
+                    presence = True
+        rets = [r for r in walk(body) if r.get("k") == "ReturnStmt"]
+        returns_value = bool(rets) and all(".value()" in render(r.get("value") or {}).replace(" ", "") for r in rets)
+        if presence and returns_value:
+            lower = False
+            if len(a) > 2:
+                v = strip(a[2])
+                if v.get("k") == "CXXDefaultArgExpr":
+                    v = strip(v.get("default_arg", {}))
+                lower = bool(v.get("v")) if v.get("k") == "CXXBoolLiteralExpr" else None
+            out[d.get("did")] = lower
+    return out
+
+
 def extract_table(prog, fn):
     rows = []
     cur = None
+    wrappers = _wrappers(fn)
     for s in fn["body"]["c"]:
+        if any(d.get("k") == "Var" and d.get("did") in wrappers for d in walk(s)):
+            continue
+        wcalls = [n for n in walk(s) if n.get("k") == "CXXOperatorCallExpr" and n.get("op") == "()" and len(n.get("c", [])) >= 3 and strip(n["c"][1]).get("k") == "DeclRefExpr" and strip(n["c"][1])["ref"].get("did") in wrappers]
+        if wcalls:
+            wc = wcalls[0]
+            lits = [x.get("v") for x in walk(wc["c"][2]) if x.get("k") == "StringLiteral"]
+            cur = {"tag": lits[0] if lits else None, "lower": wrappers[strip(wc["c"][1])["ref"]["did"]], "var": None, "node": wc, "presence": True, "assign": [], "valid": [], "value_before_presence": False}
+            rows.append(cur)
+            for a in walk(s):
+                if a.get("k") in ("BinaryOperator", "CXXOperatorCallExpr") and a.get("op") == "=":
+                    lhs = strip(a["c"][0] if a["k"] == "BinaryOperator" else a["c"][1])
+                    rhs = a["c"][1] if a["k"] == "BinaryOperator" else a["c"][2]
+                    if lhs.get("k") == "MemberExpr" and lhs["ref"].get("dk") == "Field" and any(x is wc for x in walk(rhs)):
+                        conv = [x.get("callee") for x in walk(rhs) if is_call(x) and x.get("callee", "").startswith("std::sto")]
+                        inf = "infinity" in render(rhs) and '"inf"' in render(rhs)
+                        cur["assign"].append((lhs["ref"]["name"], conv[0] if conv else None, inf, a))
+            continue
         gs = [n for n in walk(s) if is_call(n) and n.get("callee") == "parameter_reader::get_string_value"]
         if gs:
             a = call_args(gs[0])
